@@ -8,7 +8,7 @@ import wfcheck as wc
 THEOREMS = ["C06_exchange_flips_determinant", "C06_relabelling_gives_signature", "C06_multideterminant_flips", "C06_pair_sums_ignore_same_spin_relabelling",
             "C06_exchange_of_same_spin_electrons_keeps_spins", "C06_one_body_sums_ignore_same_spin_relabelling", "C06_differences_ignore_translation",
             "C06_lattice_translation_multiplies_by_twist_phase", "C06_twist_phase_is_multiplicative", "C06_kpoints_of_one_twist_share_the_phase", "C06_twist_phase_has_modulus_one",
-            "C06_signature_flips_on_adjacent_exchange", "C06_signature_of_identity_is_even", "C06_signature_flips_on_any_exchange"]
+            "C06_signature_flips_on_adjacent_exchange", "C06_signature_of_identity_is_even", "C06_signature_flips_on_any_exchange", "C06_signature_is_parity_of_number_of_exchanges", "C06_signature_from_identity_is_parity_of_number_of_exchanges"]
 S_X = "exchange of same-spin electrons"
 S_T = "rigid translation of molecule and electrons"
 S_L = "lattice translation of electrons"
@@ -140,6 +140,26 @@ def check_exchange(ck):
             if nmis <= 2:
                 ck.correspondence_broken("C06 model parity vs harness signature", str((inp, v)))
     ck.stats["permutations_signed_by_the_model"] = len(perm_cases)
+    # every relabelling applied above, decomposed into exchanges of two positions: the model's apply_swaps must reproduce it and the number of
+    # exchanges must have the parity of the signature (C06_signature_is_parity_of_number_of_exchanges says this holds for every decomposition)
+    ex_exprs = []
+    for inp, par in perm_cases:
+        p = inp["permutation"]
+        cur, sw = list(range(len(p))), []
+        for k in range(len(p)):
+            if cur[k] != p[k]:
+                j = cur.index(p[k])
+                cur[k], cur[j] = cur[j], cur[k]
+                sw.append((k, j))
+        ex_exprs.append("exchanges_give %d [%s] %s" % (len(p), "; ".join("(%d, %d)" % s for s in sw), coq_list([str(x) for x in p])))
+    vals = ck.coq_eval("exchanges", ["C06.Parity", "C06.Exchanges"], ex_exprs, scope="nat_scope")
+    nmis = 0
+    for (inp, par), v in zip(perm_cases, vals):
+        if v is not None and str(v).strip().lower() != "true":
+            nmis += 1
+            if nmis <= 2:
+                ck.correspondence_broken("C06 model apply_swaps vs the relabelling the harness applied", str((inp, v)))
+    ck.stats["relabellings_reproduced_from_exchanges_by_the_model"] = len(ex_exprs) - nmis
 
 
 BUILDERS = {}
@@ -295,7 +315,7 @@ def main(argv):
     ck.trusted = ["Coq 8.16.1 kernel", "mathcomp 1.15 (closed under the global context)", "Coq Reals axioms for the phase identities", "harness/c06.py, wfcheck.py, wfzoo.py (PySCF fixtures)", "harness signature = parity of inversions (evaluated by the Coq function Parity.parity on the same permutations)"]
     ck.assumptions = ["walkers more than e^-25 below the median |Psi| are skipped", "pseudopotential energies are compared at a fixed quadrature orientation with no stochastic skipping / selection (the random rotation is drawn per electron, so a relabelling changes which electron gets which rotation)",
                       "translation tolerance 1e-6 relative on Psi (orbital values at large distances from the origin)"]
-    ck.coq_build("C06", THEOREMS, props_files=["C06/Props.v", "C06/Props2.v"], extra_targets=["C06/Parity.vo"])
+    ck.coq_build("C06", THEOREMS, props_files=["C06/Props.v", "C06/Props2.v"], extra_targets=["C06/Parity.vo", "C06/Exchanges.vo"])
     if not ck.replay:
         check_exchange(ck)
         check_translation(ck)
